@@ -324,11 +324,17 @@ _alone_cache = {}
 
 
 def oracle_c14(seq):
+    from .common import shared_state_snapshot
     for i in seq:
         if i not in _alone_cache:
             _alone_cache[i] = alone(i)
     for pos, i in enumerate(seq):
+        before = shared_state_snapshot()
         got = run_one(i)
+        after = shared_state_snapshot()
+        if after != before:
+            diff = [k for k in before if before[k] != after[k]]
+            return f"call {i} wrote shared state {diff}: {[(before[k], after[k]) for k in diff][:1]}"
         if got != _alone_cache[i]:
             return f"call {i} at position {pos} of history {list(seq)} differs from what it gives in a fresh process"
     return None
@@ -368,7 +374,11 @@ def c14(tier, seed):
 
 def oracle_c15(case):
     idxs, switch = case
+    from .common import shared_state_snapshot
+    snap0 = shared_state_snapshot()
     expected = {i: run_one(i) for i in set(idxs)}
+    if shared_state_snapshot() != snap0:
+        return f"pipelines {sorted(set(idxs))} wrote shared (class-level / module-level) state: concurrent runs can observe it"
     old = sys.getswitchinterval()
     sys.setswitchinterval(switch)
     results = [None] * len(idxs)
@@ -378,7 +388,7 @@ def oracle_c15(case):
     def work(k, i):
         try:
             barrier.wait(timeout=10)
-            for _ in range(3):
+            for _ in range(8):
                 results[k] = run_one(i)
                 if results[k] != expected[i]:
                     break
@@ -405,6 +415,8 @@ def c15(tier, seed):
     rng = random.Random(seed)
     ok = [i for i in range(len(HIST_INPUTS))]
     cases = [((i,), 1e-6) for i in ok]
+    # the nested-layout inputs with a non-empty reference-path mapping, against every other pipeline
+    cases += [((2, i, 2, i), 1e-6) for i in ok] + [((1, 2, 7, 2, 0, 2), 1e-6)]
     for _ in range(25 if tier == "quick" else 300):
         k = rng.randint(2, 8)
         cases.append((tuple(rng.choice(ok) for _ in range(k)), 1e-6))
